@@ -517,7 +517,10 @@ def site_classification():
         i = text.index("Theorem C01_sites_classified :")
         stmt = text[i:text.index("Proof.", i)]
         gen_text = open(os.path.join(th, "Gen", "ParseSites.v")).read()
-        gen_text = gen_text[:gen_text.index("command_fns_on_parse_path")]
+        render_text = gen_text[gen_text.index("Definition render_path_sites"):gen_text.index("command_fns_on_parse_path")]
+        gen_text = gen_text[:gen_text.index("Definition render_path_sites")]
+        k = text.index("Theorem C01_render_path_sites :")
+        render_stmt = text[k:text.index("Proof.", k)]
     except (OSError, ValueError) as ex:
         return {"error": "cannot read the classification: %r" % (ex,)}
     fmt = lambda k: "%s %s %s #%s" % k  # noqa: E731
@@ -533,6 +536,17 @@ def site_classification():
     out["unclassified_source_sites"] = [fmt(k) for k in gen if k not in seen]
     out["classified_but_not_in_source"] = [fmt(k) for k in seen if k not in gen]
     out["counts"] = {label: len(v) for label, v in out["classes"].items()}
+    # the error-construction path (usage / help text): C12's models; for C01 differential only
+    rgen = _SITE_RE.findall(render_text)
+    rpin = _SITE_RE.findall(render_stmt)
+    out["classes"]["DIFFERENTIAL_ONLY_error_construction_path_C12"] = [fmt(k) for k in rpin]
+    out["meaning"]["DIFFERENTIAL_ONLY_error_construction_path_C12"] = (
+        "output/usage.rs, output/help_template.rs, builder/styled_str.rs: reached while an error is constructed (usage string, help "
+        "text); outside the parser model, modelled and proved dead for its own class by C12 (C12_usage_total, C12_padding_safe, "
+        "C12_render_total); for C01 covered by rendering every error under catch_unwind on every case")
+    out["counts"]["DIFFERENTIAL_ONLY_error_construction_path_C12"] = len(rpin)
+    out["unclassified_source_sites"] += [fmt(k) for k in rgen if k not in rpin]
+    out["classified_but_not_in_source"] += [fmt(k) for k in rpin if k not in rgen]
     return out
 
 
@@ -552,10 +566,12 @@ def publish_site_classes():
         "%s (regenerated from the source on this run: %d; pinned by C01_sites_classified): %d dead by a statement proved "
         "for every definition, %d dead for EVERY definition the gate accepts (C01_sites_dead_any_valid), and DIFFERENTIAL "
         "ONLY: (a) reachable outside class flag_sub_class, dead inside (C01_sites_dead_flag_subs): %s; (b) justified by "
-        "reasoning local to the Rust function, no theorem: %s"
+        "reasoning local to the Rust function, no theorem: %s; (c) %d sites of output/usage.rs, output/help_template.rs, "
+        "builder/styled_str.rs reached while an error is constructed: C12's models (C01_render_path_sites pins the list)"
         % (_SITE_NOTE_PREFIX, sc["source_sites"], len(c["proved_for_every_definition"]),
            len(c["dead_for_every_valid_definition"]), "; ".join(c["DIFFERENTIAL_ONLY_outside_flag_sub_class"]) or "none",
-           "; ".join(c["DIFFERENTIAL_ONLY_reasoned"]) or "none"))
+           "; ".join(c["DIFFERENTIAL_ONLY_reasoned"]) or "none",
+           len(c["DIFFERENTIAL_ONLY_error_construction_path_C12"])))
     print("C01 panic sites: %d in the source; %s; unclassified: %s; stale: %s"
           % (sc["source_sites"], ", ".join("%s=%d" % kv for kv in sc["counts"].items()),
              sc["unclassified_source_sites"] or "none", sc["classified_but_not_in_source"] or "none"))
